@@ -868,7 +868,13 @@ fn do_read(shared: &Arc<Shared>, me: usize, op_idx: usize, slot: u8) {
                 }
             }
         };
-        outcome_of_result(&arc.text, &arc.res, &mut tick)
+        if op_idx % 2 == 1 {
+            // every other read walks a clone of the shared result
+            let copy = LexResult { buffer: arc.res.buffer.clone(), errors: arc.res.errors.clone() };
+            outcome_of_result(&arc.text, &copy, &mut tick)
+        } else {
+            outcome_of_result(&arc.text, &arc.res, &mut tick)
+        }
     };
     let key = outcome.key();
     let entry = &shared.scenario.sources[arc.src];
